@@ -851,6 +851,12 @@ class ChainEngine(EngineBase):
                         ExpRun(ctx, dict(case, ops=ops)).run()
             else:
                 runner_cls(ctx, case).run()
+        except NameError as e:
+            # the library's own guard: ULA / NUTS raise NameError('NaN potential func ...') when the chain has blown up
+            # numerically (e.g. an unadjusted Langevin step that is too large for the target).  Not a C14 matter.
+            if "NaN potential" not in str(e):
+                raise
+            ctx.count("run_aborted_by_library_nan_guard")
         finally:
             sim.uninstall()
 
